@@ -2,7 +2,7 @@
 from ..core import graph, Call, peel, leaves, show, N
 from ..util import *
 from ..atomic import atomic_method
-from .cb_common import CB, CRATE, STATE_ENUM
+from .cb_common import CB, CRATE, STATE_ENUM, check_no_evict_in_half_open
 
 EXPLANATION = (
     "History equivalence with the documented machine (window arithmetic, rates vs thresholds) is numeric and is "
@@ -81,10 +81,14 @@ def run(facts, tr, rep):
                    "state write %s" % ("is not the transition target parameter" if not is_param else "is not accompanied by the atomic store on every path"))
         rep.floor("C04.state-writes", len(sw_writes), 1)
     # decoder agrees with discriminants
-    dec = facts.bodies.get(STATE_ENUM + "::from_u8")
+    # (found by signature: the crate's fn(u8) -> CircuitState)
+    dec = None
+    for b0 in facts.crates[CRATE].bodies:
+        if b0.kind == "fn" and b0.arg_count == 1 and b0.local_ty(0).get("def") == STATE_ENUM and b0.local_ty(1)["s"] == "u8":
+            dec = b0
     adt = facts.adt(STATE_ENUM)
     if dec is None or adt is None:
-        rep.anchor_missing(STATE_ENUM + "::from_u8")
+        rep.anchor_missing("decoder fn(u8) -> CircuitState")
     else:
         rep.saw(dec)
         g = graph(dec)
@@ -112,13 +116,20 @@ def run(facts, tr, rep):
         # every variant's discriminant is decoded
         # (the writer casts the enum to u8, the reader decodes with from_u8)
     # the Arc<AtomicU8> handed to the circuit is a clone of the one kept by the service
+    # (discovered by type: the call that builds the circuit from an Arc<AtomicU8>, and the service field of that type)
     ctor = None
     for b in facts.crates[CRATE].bodies:
+        if b.kind != "fn" or b.def_.split("::")[-1] == "default":
+            continue
         for c in graph(b).calls():
-            if c.name == "new_with_atomic" and b.kind == "fn" and b.crate.name == CRATE and "Default" not in b.def_:
-                ctor = (b, c)
+            tg = [facts.bodies.get(d) for d in c.targets_def()]
+            for t in tg:
+                if t is None or t.crate.name != CRATE or t.local_ty(0).get("def") != cb.circuit_adt or t.arg_count < 1:
+                    continue
+                if "Atomic<u8>" in t.local_ty(1)["s"]:
+                    ctor = (b, c)
     if ctor is None:
-        rep.anchor_missing("Circuit::new_with_atomic call in the service constructor")
+        rep.anchor_missing("call of the circuit constructor taking the shared Arc<AtomicU8> (service constructor)")
     else:
         b, c = ctor
         rep.saw(b)
@@ -127,14 +138,21 @@ def run(facts, tr, rep):
         if arg[0] == "call" and tr.call_of(arg).def_ == CLONE:
             cc = tr.call_of(arg)
             src = peel(tr.expand(tr.operand(cc.g.b, cc.args[0], cc.loc)))
-        # the service aggregate's state_atomic operand
+        # the service aggregate's Arc<AtomicU8> operand
         same = False
         for i, blk in enumerate(b.blocks):
             for j, s in enumerate(blk["stmts"]):
-                if s["k"] == "assign" and s["rv"]["k"] == "agg" and s["rv"]["ak"] == "adt" and "state_atomic" in s["rv"].get("fields", []):
-                    o = peel(tr.expand(tr.operand(b, s["rv"]["ops"][s["rv"]["fields"].index("state_atomic")], (i, j))))
-                    if src is not None and o == src:
-                        same = True
+                if s["k"] == "assign" and s["rv"]["k"] == "agg" and s["rv"]["ak"] == "adt":
+                    adt_ = facts.adt(s["rv"].get("def"))
+                    if adt_ is None:
+                        continue
+                    for fi, fname in enumerate(s["rv"].get("fields", [])):
+                        fdef = next((f for f in adt_["variants"][0]["fields"] if f["name"] == fname), None)
+                        if fdef is None or "Atomic<u8>" not in b.crate.types[fdef["ty"]]["s"]:
+                            continue
+                        o = peel(tr.expand(tr.operand(b, s["rv"]["ops"][fi], (i, j))))
+                        if src is not None and o == src:
+                            same = True
         rep.ob("C04.VIEWS", skey(b, "mirror-shared"), same, c.where(),
                "the atomic handed to the circuit is a clone of the Arc the service reads in state_sync()" if same else
                "the atomic handed to the circuit is not the one stored in the service")
@@ -154,9 +172,7 @@ def run(facts, tr, rep):
     rows = set()
     for (b, cs, tgt) in cb.transition_calls():
         rep.saw(b)
-        name = b.def_.split("::")[-1]
-        if name.startswith("evaluate"):
-            name = "evaluate"
+        name = cb.role(b)
         arm, arm_edge = cb.arm_of(b, cs.bb)
         rows.add((name, arm, tgt))
         g = graph(b)
@@ -215,10 +231,10 @@ def run(facts, tr, rep):
            "all %d documented transition edges are present" % len(EXPECTED) if not missing else "documented transitions missing: %s" % sorted(missing))
     rep.floor("C04.transition-call-sites", len(rows), 7)
     # evaluate is reached from the non-HalfOpen arms of both recorders
-    ev = [b for b in facts.crates[CRATE].bodies if b.def_.split("::")[-1].startswith("evaluate") and b.kind == "fn"]
+    ev = [b for b in facts.crates[CRATE].bodies if cb.role(b) == "evaluate" and b.kind == "fn"]
     for e in ev:
         callers = tr.callers(e.def_)
-        names = sorted({c.g.b.def_.split("::")[-1] for c in callers})
+        names = sorted({cb.role(c.g.b) for c in callers})
         rep.ob("C04.TABLE", skey(e, "callers"), set(names) == {"record_failure", "record_success"}, "%s:%d" % (e.span["file"], e.span["line"]),
                "window evaluation is invoked from %s" % names)
         for c in callers:
@@ -233,11 +249,11 @@ def run(facts, tr, rep):
             if ch.kind != "coroutine":
                 continue
             gch = graph(ch)
-            recs = [c for c in gch.calls() if c.name in ("record_failure", "record_success") and any(d.startswith(CRATE) for d in c.targets_def())]
-            for c in recs:
+            recs = [(c, cb.roles.get(d)) for c in gch.calls() for d in c.targets_def() if cb.roles.get(d) in ("record_failure", "record_success")]
+            for (c, crole) in recs:
                 nrec += 1
                 rep.saw(ch)
-                want = "true" if c.name == "record_failure" else "false"
+                want = "true" if crole == "record_failure" else "false"
                 edges = [e for e in dominating_edges(tr, ch, c.bb) if e["kind"] == "bool"]
                 cls = [e for e in edges if e["node"][0] == "call" and tr.call_of(e["node"]).name == "classify"]
                 extra = [e for e in edges if e not in cls and not (e["node"][0] == "call" and e["node"] in [x["node"] for x in cls])
@@ -247,10 +263,10 @@ def run(facts, tr, rep):
                     cc = tr.call_of(cls[0]["node"])
                     arg = peel(tr.expand(tr.operand(ch, cc.args[1], cc.loc)))
                     ok = any(x[0] == "call" and tr.call_of(x).def_ == "core::future::future::Future::poll" for x in tr.walk(arg, limit=30))
-                rep.ob("C04.REC", skey(ch, "%s#%d" % (c.name, ordinal(gch, c))), ok, c.where(),
-                       "%s is recorded exactly when failure_classifier.classify(&result) is %s" % (c.name.split("_")[1], want) if ok else
+                rep.ob("C04.REC", skey(ch, "%s#%d" % (crole, ordinal(gch, c))), ok, c.where(),
+                       "%s is recorded exactly when failure_classifier.classify(&result) is %s" % (crole.split("_")[1], want) if ok else
                        "%s is not decided by failure_classifier.classify(&result) alone (extra condition or different verdict): the two services of "
-                       "the breaker would count outcomes differently from the documented classifier" % c.name)
+                       "the breaker would count outcomes differently from the documented classifier" % crole)
     rep.floor("C04.record-sites", nrec, 4)
     # ------------------------------------------------------------ RESET
     window_fields = []
@@ -263,7 +279,7 @@ def run(facts, tr, rep):
                 if _clears_on_all_paths(facts, tr, T, cb, f["name"], fty, from_bb=None, must_reach_after_state_write=True):
                     window_fields.append((f["name"], fty))
     rep.floor("C04.window-fields", len(window_fields), 5)
-    reset = facts.bodies.get(cb.circuit_adt + "::reset")
+    reset = cb.by_role("reset")
     if reset is None:
         rep.anchor_missing("Circuit::reset")
     else:
@@ -273,9 +289,11 @@ def run(facts, tr, rep):
             rep.ob("C04.RESET", skey(reset, "clears." + fname), ok, "%s:%d" % (reset.span["file"], reset.span["line"]),
                    "every path through reset leaves %s empty/zero" % fname if ok else
                    "reset can return with %s untouched (e.g. through the transition function's same-state early return)" % fname)
+    # ------------------------------------------------------------ HALF-OPEN-COUNT: sliding must not eat trial successes
+    check_no_evict_in_half_open(cb, rep, "C04.HALF-OPEN-COUNT")
     # ------------------------------------------------------------ SLIDE
     for rname in ("record_success", "record_failure"):
-        rb = facts.bodies.get(cb.circuit_adt + "::" + rname)
+        rb = cb.by_role(rname)
         if rb is None:
             rep.anchor_missing("Circuit::" + rname)
             continue
